@@ -510,6 +510,8 @@ class Gen:
 def c_lit(e):
     v, ty = e["v"], e["ty"]
     if ty in SUFFIX:
+        if e.get("hex") and v >= 0:      # hexadecimal / octal spelling: 6.4.4.1 adds the unsigned types to the list
+            return ("0x%X%s" if e["hex"] == 16 else "0%o%s") % (v, SUFFIX[ty])
         return "%d%s" % (v, SUFFIX[ty])
     return "((%s)%d)" % (CNAME[ty], v)
 
@@ -715,7 +717,7 @@ def word(v, n=8):
 def _enc_expr(e):
     k = e["k"]
     if k == "lit":
-        return {"k": "lit", "ty": e["ty"], "w": word(e["v"])}
+        return {"k": "lit", "ty": e["ty"], "w": word(e["v"]), "hex": bool(e.get("hex")) and e["v"] >= 0 and e["ty"] in SUFFIX}
     if k == "var":
         return {"k": "var", "n": e["n"]}
     if k == "idx":
